@@ -8,12 +8,13 @@ from __future__ import annotations
 
 import os
 from collections import Counter
+from datetime import date
 from fractions import Fraction
 from typing import Any, Dict, List, Optional, Tuple
 
 from hypothesis import strategies as st
 
-from .. import cli, cli_common, filegen, files, gen, model, report_model
+from .. import cli, cli_common, drive_api, filegen, files, gen, model, report_model
 from ..report_model import cellv
 from ..runner import Outcome
 from . import c13
@@ -84,6 +85,29 @@ def evaluate(case: Dict[str, Any]) -> Outcome:
                 return out
             out.skipped = "run_failed(C16)"
             return out
+        if case.get("from"):
+            # the window's fractions are selected here, from a run that has no from-date, by the event's own date: a defect in
+            # rp2's from-date filtering would otherwise hide the same rows from the reference and from the report alike
+            ini, ods = os.path.join(folder, "input.ini"), os.path.join(folder, "input.ods")
+            unfiltered = drive_api.compute_files(
+                ini,
+                ods,
+                country,
+                schedule=cli_common.schedule_of(case),
+                long_term_days=case.get("long_term_days"),
+                from_date=None,
+                to_date=case.get("to"),
+                allow_negative=bool(case.get("allow_negative")),
+                assets=[case["asset_opt"]] if case.get("asset_opt") else None,
+            )
+            if not unfiltered.get("ok"):
+                out.skipped = "run_failed(C16)"
+                return out
+            from_d = model.parse_date(case["from"])
+            for asset in unfiltered["assets"]:
+                unfiltered["assets"][asset]["fractions"] = [f for f in unfiltered["assets"][asset]["fractions"] if date(*f["ev_date"]) >= from_d]
+            reference = unfiltered
+            out.classes.add("from_date_reference_filtered_by_own_dates")
         label = cli.method_label(case.get("method"), case.get("schedule"), country)
         path = os.path.join(outdir, f"{case.get('prefix') or ''}{label}_tax_report_{country}.ods")
         sheets = files.read_ods(path)
